@@ -6,7 +6,7 @@ LEVEL = "model_checking"
 
 def run(ctx):
     q = ctx.quick
-    kinds = KINDS_ALL[:6] + [KINDS_ALL[6]]
+    kinds = KINDS_ALL[:6] + [KINDS_ALL[6], KINDS_ALL[8]]
     c = dict(MaxChunks=3, MaxMsg=65536, ChunkBytes=1024, DevMsgBeforeOpen=False, DevNoChunkLimit=False,
              Kinds=Tla("{" + ", ".join(tla_value(k) for k in kinds) + "}"), MaxDepth=5 if q else 6)
     ctx.model_check("design", "MCHandshake", dict(c, MaxDepth=7), ["C15"], view="MView")
@@ -15,6 +15,6 @@ def run(ctx):
     h, r = ctx.gen("frames", "GenHandshake", c)
     ctx.cov["exhaustive"] = True
     pipeline(ctx, "C15", take(h, 8000 if q else 200000, ctx.seed), c,
-             lambda x: any(s["kind"] == "MSG" and s["fl"] == "F" for s in x["steps"]),
-             "every sequence of frames over {HEL, OPN issue, OPN renew, MSG GetEndpoints, MSG Read, CLO, intermediate MSG chunk} up to the "
+             lambda x: any(s["kind"] in ("MSG", "MSGS") and s["fl"] == "F" for s in x["steps"]),
+             "every sequence of frames over {HEL, OPN issue, OPN renew, MSG GetEndpoints, MSG Read, MSG with a stale channel id, CLO, intermediate MSG chunk} up to the "
              "depth bound, fed to a real TcpTransport the way its reading task feeds it; non-trivial = contains a complete MSG")
